@@ -57,20 +57,50 @@ def hints_of(case):
     return res
 
 
-def coq_ecall(call, hint):
+def coq_ecall(call, hint, live=None):
+    """live: ids of the tracks that can possibly be compatible (a superset; the model decides compatibility itself).
+    Entries for long-expired tracks are left out of the tables only to keep the lookups short."""
     fd = []
     for (cu, tid), tab in sorted(call["fd"].items()):
+        if live is not None and tid not in live:
+            continue
         for ou, bits in tab.items():
             if ou is None:
                 continue
             fd.append("(%s, %s, %s)" % (n_lit(cu), n_lit(ou), q_lit(f32_bits_to_fraction(bits[0]))))
     pos = []
     for (cu, tid), lst in sorted(call["pos"].items()):
+        if live is not None and tid not in live:
+            continue
         wb, z = lst[0]
         pos.append("(%s, %s, (%s, %s))" % (n_lit(cu), n_lit(tid), q_lit(f32_bits_to_fraction(wb)), z_lit(z)))
     return "(mkECall %s %s %s %s %s)" % (
         n_lit(call["scene"]), coq_list([base.coq_det(d) for d in call["dets"]]), coq_list(fd), coq_list(pos),
         coq_list(["(%s, %s)" % (n_lit(a), n_lit(b)) for a, b in hint]))
+
+
+def canon_ids(case):
+    """BatchVisualSort issues ids in its own way (the property says "up to renaming"): rename the implementation's track
+    ids by order of first appearance in the records, which is how the model numbers new tracks."""
+    if case["spec"]["trk"] != "bvs":
+        return case
+    # a call without detections does not reach the batch tracker at all (no scene in the batch: no epoch step)
+    case["calls"] = [c for c in case["calls"] if c["dets"] or c["status"] != "ok"]
+    ren = {}
+    for call in case["calls"]:
+        for r in call["recs"]:
+            if r["id"] not in ren:
+                ren[r["id"]] = len(ren) + 1
+    g = lambda i: ren.get(i, 1000000 + i)
+    for call in case["calls"]:
+        for r in call["recs"]:
+            r["id"] = g(r["id"])
+        call["trk"] = {g(k): dict(v, id=g(k)) for k, v in call["trk"].items()}
+        call["fd"] = {(c, g(t)): v for (c, t), v in call["fd"].items()}
+        call["pos"] = {(c, g(t)): v for (c, t), v in call["pos"].items()}
+    case["end"] = {g(k): dict(v, id=g(k)) for k, v in case["end"].items()}
+    case["wasted"] = {g(k): dict(v, id=g(k)) for k, v in case["wasted"].items()}
+    return case
 
 
 def good_calls(case):
@@ -82,11 +112,23 @@ def good_calls(case):
     return n
 
 
+def live_sets(case):
+    """per call: ids of tracks of the call's scene updated at most idle+1 epochs ago (superset of the compatible ones)"""
+    last = {}
+    res = []
+    for call in case["calls"]:
+        res.append({tid for tid, (sc, ep) in last.items() if sc == call["scene"] and call["epoch"] - ep <= case["spec"]["idle"] + 1})
+        for r in call["recs"]:
+            last[r["id"]] = (r["scene"], r["epoch"])
+    return res
+
+
 def model_expr(case):
     n = good_calls(case)
     hints = hints_of(case)
+    live = live_sets(case)
     return "run_case %s %s %s" % (coq_topts(case["spec"]), q_lit(MARGIN),
-                                  coq_list([coq_ecall(c, h) for c, h in zip(case["calls"][:n], hints[:n])]))
+                                  coq_list([coq_ecall(c, h, l) for c, h, l in zip(case["calls"][:n], hints[:n], live[:n])]))
 
 
 def _opt(v):
@@ -335,10 +377,10 @@ def run(chk):
         chk.violation("harness-build", "the correspondence harness does not build against /repo", {"log": out[-4000:]}, found_input=False)
         chk.coverage.update({"evaluations": 0})
         return
-    n = 240 if chk.tier == "quick" else 3000
+    n = 200 if chk.tier == "quick" else 2400
     t0 = time.time()
     rc, out, err = vlib.harness_run("visual", ["c12", "--seed", chk.seed, "--n", n, "--tier", chk.tier], timeout=1500)
-    cases = base.parse_output(out)
+    cases = [canon_ids(c) for c in base.parse_output(out)]
     chk.log("implementation ran %d histories (%.1fs)" % (len(cases), time.time() - t0))
 
     hist = Counter()
@@ -358,6 +400,11 @@ def run(chk):
             if call["status"] != "ok":
                 hist["call_" + call["status"]] += 1
         calls_total += good_calls(c)
+        for call in c["calls"]:
+            # modelling assumption: only the newest stored observation of a track still has a box
+            if any(len(l) > 1 for l in call["pos"].values()):
+                hist["positional_metric_on_old_observation"] += 1
+                chk.broken.append("case %d call %d: a positional metric exists for more than one stored observation of a track" % (s["k"], call["j"]))
         f, st = oracle_case(c)
         ostats.update(st)
         if f:
@@ -406,14 +453,14 @@ def run(chk):
         c = cases[i]
 
         def fails(line):
-            cs = base.run_spec_lines([line], tables=True)
+            cs = [canon_ids(c) for c in base.run_spec_lines([line], tables=True)]
             return bool(cs) and any(k == key0 for k, _, _ in oracle_case(cs[0])[0])
         calls = [x for x in c["spec"]["calls_txt"].split(";") if x]
         line = base.spec_with_calls(c["spec"]["line"], ";".join(calls[:ci0 + 1]))
         if not fails(line):
             line = c["spec"]["line"]
         small = base.shrink_spec(line, fails, budget=40)
-        cs = base.run_spec_lines([small], tables=True)
+        cs = [canon_ids(c) for c in base.run_spec_lines([small], tables=True)]
         f2 = oracle_case(cs[0])[0] if cs else []
         chk.violation("C12:" + key0, what0,
                       {"input": small, "oracle_failures": [list(x) for x in (f2 or f)[:6]],
@@ -436,7 +483,7 @@ def replay(chk, path):
     rep = json.load(open(path))
     ok, out = vlib.harness_build(["visual"])
     line = rep.get("input") or rep.get("correspondence_case")
-    cs = base.run_spec_lines([line], tables=True)
+    cs = [canon_ids(c) for c in base.run_spec_lines([line], tables=True)]
     f = oracle_case(cs[0])[0] if cs else [("no-output", 0, "harness printed nothing")]
     for x in f[:10]:
         print("oracle failure:", x)
